@@ -72,6 +72,8 @@ def gen_case(S, tier, prop, force=None):
     rng = S("gen")
     small = rng.random() < 0.5
     popN = rng.choice([5, 8, 12, 20]) if small else rng.choice([30, 60, 120, 300])
+    if rng.random() < 0.08:
+        popN = rng.choice([100000, 1000000])      # large populations: limits and counts of a different magnitude
     only_T = force.get("transition_only", False)
     n = force.get("n")
     m = force.get("m")
@@ -284,15 +286,6 @@ class Session(object):
         import random
         srng = random.Random(renv.get("script_seed", 0))
         est = max(float(case.get("est_events", 1000.0)), float(case.get("est_steps", 0.0)))
-        # the estimate travels with the case; recompute it for the case as it is now (a minimised case has other
-        # parameters / horizon than the one the stored number was made for)
-        try:
-            horizons = [float(op["T"]) for op in case["ops"] if "T" in op] + \
-                       [float(op["grid"][-1]) for op in case["ops"] if op.get("grid")]
-            if horizons:
-                est = max(est, float(estimate_events(self.ref, self.theta, list(self.x0), self.t0, max(horizons))))
-        except Exception:
-            pass
         self.cap = int(60 * est * (self.ref.m + 1) + 50000)
         self.r = seams.RSeam(self.pg.ss, mode=renv.get("mode", "natural"), script_rng=srng,
                              faults=renv.get("faults", {}), cap=self.cap, sim_module=self.pg.sim).install()
@@ -625,6 +618,22 @@ def finish(case, out, stats, log, sess, keep_prefix):
 # reductions (delta debugging moves) shared by the jump properties
 # ---------------------------------------------------------------------------------------------------
 def reductions(case):
+    """Delta-debugging moves; the event estimate that sizes the step cap travels with the case, so it is refreshed
+    for every candidate (a candidate with other parameters must not 'fail' the step cap because of a stale number)."""
+    for d in _reductions(case):
+        try:
+            ref = RefModel(d["model"], insertion_order(d["model"]))
+            hs = [float(op["T"]) for op in d["ops"] if "T" in op] or [float(op["grid"][-1]) for op in d["ops"] if op.get("grid")]
+            if hs:
+                new = float(estimate_events(ref, d["theta"], list(d["x0"]), d["t0"], max(hs)))
+                old_ = max(float(d.get("est_events", 0.0)), float(d.get("est_steps", 0.0)))
+                d["est_events"] = float(min(max(old_, new), 20000.0))
+        except Exception:
+            pass
+        yield d
+
+
+def _reductions(case):
     import copy
     c = case
 
